@@ -174,6 +174,8 @@ pub fn assemble(ctx: &mut Ctx, c: &Value) -> (Vec<u8>, bool) {
     let f = &c["f"];
     let g = |k: &str| f[k].as_str().unwrap();
     let content = match kind {
+        // (a caller may bring its own eContent: C14 wraps its manifest contents in real signed manifests)
+        _ if c["content"].is_array() => c["content"].as_array().unwrap().iter().map(|x| x.as_u64().unwrap() as u8).collect(),
         "roa" => roa_content(g("cover"), c["fam"].as_str().unwrap_or("v4")),
         "aspa" => aspa_content(if g("cover") == "outside" { 64497 } else { 64496 }),
         "mft" => mft_content(),
